@@ -36,6 +36,7 @@ type RateLimitValidator struct {
 	logger  logger.StyledLogger
 
 	globalLimiter           *rate.Limiter
+	globalMu                sync.Mutex // serialises the questions to globalLimiter, see allowNow
 	cleanupTicker           *time.Ticker
 	stopCleanup             chan struct{}
 	ipLimiters              *xsync.Map[string, *ipLimiterInfo]
@@ -55,6 +56,7 @@ type ipLimiterInfo struct {
 	tokensUsed   int
 	requestLimit int
 	mu           sync.RWMutex
+	askMu        sync.Mutex // serialises the questions to limiter, see allowNow
 }
 
 func NewRateLimitValidator(limits config.ServerRateLimits, metrics ports.SecurityMetricsService, logger logger.StyledLogger) *RateLimitValidator {
@@ -113,7 +115,7 @@ func (rl *RateLimitValidator) Validate(ctx context.Context, req ports.SecurityRe
 	if rl.globalLimiter != nil {
 		// Allow decides and deducts in one step; reserving and cancelling does not bound
 		// concurrent senders (cancelled reservations hand tokens back more than once)
-		if !rl.globalLimiter.Allow() {
+		if !allowNow(&rl.globalMu, rl.globalLimiter) {
 			return ports.SecurityResult{
 				Allowed:    false,
 				RetryAfter: 60,
@@ -150,7 +152,7 @@ func (rl *RateLimitValidator) checkIPLimit(clientIP string, limit int, now time.
 
 	// decide and deduct in one step: with Reserve/Cancel overlapping requests of one client
 	// were admitted beyond burst + rate x t, and refusals burned tokens
-	if !limiter.Allow() {
+	if !allowNow(&limiterInfo.askMu, limiter) {
 		delay := retryDelay(limiter)
 
 		limiterInfo.mu.RLock()
@@ -178,6 +180,16 @@ func (rl *RateLimitValidator) checkIPLimit(clientIP string, limit int, now time.
 		Remaining: remaining,
 		ResetTime: now.Add(time.Minute),
 	}
+}
+
+// allowNow asks the bucket with a time stamp taken while mu is held. Limiter.Allow reads the
+// clock before it takes the limiter's own lock; a caller that is descheduled in between hands
+// in a stale stamp, the bucket's clock moves backwards and the tokens for the gap are granted
+// a second time. Under mu the stamps of one bucket never run backwards.
+func allowNow(mu *sync.Mutex, limiter *rate.Limiter) bool {
+	mu.Lock()
+	defer mu.Unlock()
+	return limiter.AllowN(time.Now(), 1)
 }
 
 // retryDelay estimates how long until the limiter has a whole token again
